@@ -348,6 +348,7 @@ def _proxy_setup_failure(fail_at, use_ssl, nclients):
     class _S(BaseSession):
         pass
     fail_at = pick([0, 1, 2, 3], fail_at)              # 3: no failure
+    use_ssl = True if use_ssl else False               # decided while tracing: concrete from here on
     st = {'bad': None, 'ok': 0, 'failed': 0}
     real = P.HappyEyeballsConnection
 
@@ -392,6 +393,16 @@ def _proxy_setup_failure(fail_at, use_ssl, nclients):
             for hp in cp.host_pools.values():
                 if hp.busy:
                     st['bad'] = 'connection still checked out after the session ended'
+        if fail_at == 3:
+            # the plain pool interface (acquire / release) on the proxy pool hands out the connection it checked out
+            conn = await cp.acquire('h.example', 80)
+            if conn is None:
+                st['bad'] = st['bad'] or 'acquire() returned nothing although a connection was checked out'
+            else:
+                await cp.release(conn)
+            for hp in cp.host_pools.values():
+                if hp.busy:
+                    st['bad'] = st['bad'] or 'connection still checked out after acquire()/release()'
         await cp.clean(force=True)
         if cp.host_pools:
             st['bad'] = st['bad'] or 'bookkeeping kept for idle host'
